@@ -63,13 +63,13 @@ bool budget_trip(BudgetState &b, const char *kind) {
         ClaimedCounts cc = t_claim_fn();
         const uint64_t CAP = 1ull << 40;
         uint64_t claimed = std::min(cc.values, CAP), objects = std::min(cc.objects, CAP);
-        b.claimed_values = claimed;
+        b.claimed_values = claimed; b.claimed_objects = objects;
         uint64_t nr = b.reads_at_data + claimed + 1 + 16;
         uint64_t nb = b.bytes_at_data + 4 * claimed + 1 + 64;
         uint64_t nh = 512 * b.file_size + (1u << 20) + 1024 * objects; // a named point / channel and its share of the containers, copied once on the way in
         bool explained = ki == 0 ? nr > b.max_reads : ki == 1 ? nb > b.max_bytes : nh > b.max_heap;
         if (!explained) { b.tripped = true; b.kind = BEYOND[ki]; note_site(b); return false; }
-        bool affordable = nr <= 8 * (2 * b.file_size + 1024) && nh <= (1ull << 28);
+        bool affordable = nr <= 4 * (2 * b.file_size + 1024) && nh <= std::min<uint64_t>(4 * (512 * b.file_size + (1u << 20)), 1ull << 26);
         if (affordable) {
             b.soft = true; b.soft_kind = kind; b.kind = kind; note_site(b);
             std::memcpy(b.soft_site, b.site, sizeof b.soft_site);
@@ -214,8 +214,7 @@ inline void *sim_alloc(size_t size, bool nothrow) {
     sim::alloc_yield_hook(); // C18: an allocation inside library code is a point where another thread may run
     sim::BudgetState &b = sim::budget_state();
     if (b.armed) {
-        uint64_t live = static_cast<uint64_t>(sim::t_live > 0 ? sim::t_live : 0);
-        uint64_t above = live > b.heap_base ? live - b.heap_base : 0;
+        uint64_t above = static_cast<uint64_t>(b.window_live > 0 ? b.window_live : 0);
         while (above + size > b.max_heap) {
             if (sim::budget_trip(b, "heap")) continue; // explained by the counts the file claims: budget enlarged once
             if (nothrow) return nullptr;
@@ -230,6 +229,7 @@ inline void *sim_alloc(size_t size, bool nothrow) {
     uint64_t c = sim::g_count.fetch_add(1) + 1;
     sim::g_live.fetch_add(size);
     sim::t_live += static_cast<int64_t>(size);
+    if (b.armed) b.window_live += static_cast<int64_t>(size);
     unsigned char fill = static_cast<unsigned char>(sim::mix(sim::g_fill_seed.load(), c) & 0xff);
     void *p = static_cast<char *>(raw) + HDR;
     std::memset(p, fill, size < (1u << 20) ? size : (1u << 20)); // large blocks: only the first MiB (keeps them virtual)
@@ -241,6 +241,7 @@ inline void sim_free(void *p) noexcept {
     uint64_t size = *static_cast<uint64_t *>(raw);
     sim::g_live.fetch_sub(size);
     sim::t_live -= static_cast<int64_t>(size);
+    { sim::BudgetState &b = sim::budget_state(); if (b.armed) b.window_live -= static_cast<int64_t>(size); }
     std::free(raw);
 }
 } // namespace
